@@ -150,7 +150,7 @@ def check(ctx):
         run.check(len(s.yields) == 1 and s.yields[0][0] == 'identity' and not s.guards, 'R19a', where(repo, loop), rc.qualname,
                   'one yield per row, unconditionally', 'rows are counted that are not written, or vice versa')
     # row_counter wraps the stream *after* the writer (counts what was written), per resource
-    pr = db.methods.get('process_resources')
+    pr = ctx.N(db.methods.get('process_resources'))
     facts = Facts(pr, include_nested=False)
     wraps = [c for c in own_nodes(pr.node) if isinstance(c, ast.Call) and isinstance(c.func, ast.Attribute)
              and c.func.attr == 'row_counter']
@@ -194,7 +194,9 @@ def check(ctx):
     for name in ('get_attr', 'set_attr', 'inc_attr'):
         f = ctx.N(db.methods.get(name))
         prm = f.params[1]
-        sp_ = find_stmt("_q = %s.split('.')" % prm, f.node)
+        # the parameter, or a plain copy of it (what an inlined helper's parameter becomes)
+        copies_ = [prm] + [b_['_c'] for _n, b_ in find_stmt('_c = %s' % prm, f.node)]
+        sp_ = [x_ for c_ in copies_ for x_ in find_stmt("_q = %s.split('.')" % c_, f.node)]
         ok = len(sp_) == 1 and (has_stmt('if %s is None:\n    return' % prm, f.node) or has_stmt('if %s is None:\n    return None' % prm, f.node))
         # second spelling: *parents, last = prop.split('.'); for part in parents: obj = obj.setdefault(part, {})
         star = find_stmt("(*_ps, _last) = %s.split('.')" % prm, f.node)
